@@ -56,6 +56,163 @@ let rec print (b : Buffer.t) (x : sexp) : unit =
     List.iteri (fun i y -> if i > 0 then Buffer.add_char b ' '; print b y) l;
     Buffer.add_char b ')'
 
+(* ---------- numeric instance: OCaml's hardware doubles (the same IEEE binary64 arithmetic as Go's float64) ---------- *)
+
+let rec int64_of_pos (p : positive) : int64 =
+  match p with
+  | XH -> 1L
+  | XO q -> Int64.shift_left (int64_of_pos q) 1
+  | XI q -> Int64.logor (Int64.shift_left (int64_of_pos q) 1) 1L
+
+let int64_of_n (n : n) : int64 = match n with N0 -> 0L | Npos p -> int64_of_pos p   (* as unsigned 64 bits *)
+
+let rec pos_of_int64 (i : int64) : positive =   (* i <> 0, read as unsigned *)
+  if i = 1L then XH
+  else
+    let rest = pos_of_int64 (Int64.shift_right_logical i 1) in
+    if Int64.logand i 1L = 1L then XI rest else XO rest
+
+let n_of_int64 (i : int64) : n = if i = 0L then N0 else Npos (pos_of_int64 i)
+
+let z_of_int64 (i : int64) : z =
+  if i = 0L then Z0
+  else if i > 0L then Zpos (pos_of_int64 i)
+  else if i = Int64.min_int then Zneg (pos_of_int64 i)           (* 2^63 read as unsigned *)
+  else Zneg (pos_of_int64 (Int64.neg i))
+
+let int64_of_z (z : z) : int64 =
+  match z with Z0 -> 0L | Zpos p -> int64_of_pos p | Zneg p -> Int64.neg (int64_of_pos p)
+
+let canon_nan = 0x7ff8000000000001L
+let fl (n : n) : float = Int64.float_of_bits (int64_of_n n)
+let bits (f : float) : n = if f <> f then n_of_int64 canon_nan else n_of_int64 (Int64.bits_of_float f)
+
+(* Go: int64(f) on amd64 (CVTTSD2SQ): NaN and out-of-range give the "integer indefinite" value -2^63 *)
+let go_int64 (f : float) : int64 =
+  if f <> f || f >= 9223372036854775808.0 || f < -9223372036854775808.0 then Int64.min_int else Int64.of_float f
+
+(* port of Go's math.Pow (pure Go on amd64); Exp/Log are only reached for fractional exponents other than +-0.5 *)
+let is_odd_int (y : float) : bool =
+  if Float.abs y >= 9007199254740992.0 then false
+  else let yi, yf = Float.modf y |> fun (f, i) -> (i, f) in yf = 0.0 && Int64.logand (Int64.of_float yi) 1L = 1L
+
+let rec go_pow (x : float) (y : float) : float =
+  let is_inf v s = (s >= 0 && v = Float.infinity) || (s <= 0 && v = Float.neg_infinity) in
+  if y = 0.0 || x = 1.0 then 1.0
+  else if y = 1.0 then x
+  else if x <> x || y <> y then Float.nan
+  else if x = 0.0 then begin
+    if y < 0.0 then (if Float.sign_bit x && is_odd_int y then Float.copy_sign Float.infinity x else Float.infinity)
+    else (if Float.sign_bit x && is_odd_int y then x else 0.0)
+  end
+  else if is_inf y 0 then begin
+    if x = -1.0 then 1.0
+    else if (Float.abs x < 1.0) = is_inf y 1 then 0.0 else Float.infinity
+  end
+  else if is_inf x 0 then begin
+    if is_inf x (-1) then go_pow (1.0 /. x) (-. y)
+    else if y < 0.0 then 0.0 else Float.infinity
+  end
+  else if y = 0.5 then Float.sqrt x
+  else if y = -0.5 then 1.0 /. Float.sqrt x
+  else begin
+    let yf0, yi0 = Float.modf (Float.abs y) in
+    let yi = ref yi0 and yf = ref yf0 in
+    if !yf <> 0.0 && x < 0.0 then Float.nan
+    else if !yi >= 9223372036854775808.0 then begin
+      if x = -1.0 then 1.0
+      else if (Float.abs x < 1.0) = (y > 0.0) then 0.0 else Float.infinity
+    end else begin
+      let a1 = ref 1.0 and ae = ref 0 in
+      if !yf <> 0.0 then begin
+        if !yf > 0.5 then (yf := !yf -. 1.0; yi := !yi +. 1.0);
+        a1 := Float.exp (!yf *. Float.log x)
+      end;
+      let x1f, xe0 = Float.frexp x in
+      let x1 = ref x1f and xe = ref xe0 in
+      let i = ref (Int64.of_float !yi) in
+      (try
+         while !i <> 0L do
+           if !xe < -4096 || 4096 < !xe then (ae := !ae + !xe; raise Exit);
+           if Int64.logand !i 1L = 1L then (a1 := !a1 *. !x1; ae := !ae + !xe);
+           x1 := !x1 *. !x1;
+           xe := !xe lsl 1;
+           if !x1 < 0.5 then (x1 := !x1 +. !x1; xe := !xe - 1);
+           i := Int64.shift_right !i 1
+         done
+       with Exit -> ());
+      if y < 0.0 then (a1 := 1.0 /. !a1; ae := - !ae);
+      Float.ldexp !a1 !ae
+    end
+  end
+
+(* strconv.FormatFloat(v, 'f', -1, 64): the shortest digit string that reads back as v, in positional notation *)
+let fmt_shortest (v : float) : ostring =
+  if v <> v then "NaN"
+  else if v = Float.infinity then "+Inf"
+  else if v = Float.neg_infinity then "-Inf"
+  else if v = 0.0 then (if Float.sign_bit v then "-0" else "0")
+  else begin
+    let neg = v < 0.0 in
+    let a = Float.abs v in
+    let rec find p = if p > 17 then Printf.sprintf "%.17e" a else
+        let s = Printf.sprintf "%.*e" (p - 1) a in
+        if float_of_string s = a then s else find (p + 1) in
+    let s = find 1 in
+    let epos = Stdlib.String.index s 'e' in
+    let mant = Stdlib.String.sub s 0 epos in
+    let ex = int_of_string (Stdlib.String.sub s (epos + 1) (Stdlib.String.length s - epos - 1)) in
+    let digits = Buffer.create 20 in
+    Stdlib.String.iter (fun c -> if c <> '.' then Buffer.add_char digits c) mant;
+    let d = Buffer.contents digits in
+    (* strip trailing zeros *)
+    let n = ref (Stdlib.String.length d) in
+    while !n > 1 && d.[!n - 1] = '0' do decr n done;
+    let d = Stdlib.String.sub d 0 !n in
+    let nd = Stdlib.String.length d in
+    let body =
+      if ex >= nd - 1 then d ^ Stdlib.String.make (ex - (nd - 1)) '0'
+      else if ex >= 0 then Stdlib.String.sub d 0 (ex + 1) ^ "." ^ Stdlib.String.sub d (ex + 1) (nd - ex - 1)
+      else "0." ^ Stdlib.String.make (- ex - 1) '0' ^ d in
+    (if neg then "-" else "") ^ body
+  end
+
+let rec list_of_string (s : ostring) : n list =
+  List.init (Stdlib.String.length s) (fun i -> n_of_int64 (Int64.of_int (Char.code s.[i])))
+
+let ops : numops = {
+  fadd = (fun a b -> bits (fl a +. fl b));
+  fsub = (fun a b -> bits (fl a -. fl b));
+  fmul = (fun a b -> bits (fl a *. fl b));
+  fdiv = (fun a b -> bits (fl a /. fl b));
+  fpow = (fun a b -> bits (go_pow (fl a) (fl b)));
+  fmin = (fun a b -> bits (Float.min (fl a) (fl b)));
+  fmax = (fun a b -> bits (Float.max (fl a) (fl b)));
+  fneg = (fun a -> bits (-. (fl a)));
+  fabs = (fun a -> bits (Float.abs (fl a)));
+  ffloor = (fun a -> bits (Float.floor (fl a)));
+  fceil = (fun a -> bits (Float.ceil (fl a)));
+  fround = (fun a -> bits (Float.round (fl a)));
+  flt = (fun a b -> fl a < fl b);
+  fle = (fun a b -> fl a <= fl b);
+  is_int = (fun a -> let v = fl a in v = Float.trunc v && Float.abs v < 9223372036854775808.0);
+  to_i64 = (fun a -> z_of_int64 (go_int64 (fl a)));
+  of_Z = (fun z -> bits (Int64.to_float (int64_of_z z)));
+  of_dec = (fun digits e10 ->
+      let b = Buffer.create 32 in
+      List.iter (fun c -> Buffer.add_char b (Char.chr (Int64.to_int (int64_of_n c)))) digits;
+      let e = match e10 with
+        | Z0 -> 0
+        | Zpos _ | Zneg _ ->
+          (* clamp: beyond +-100000 the result is 0 or overflow anyway *)
+          let rec small (p : positive) (acc : int) (w : int) = if acc > 1000000 then acc else
+              match p with XH -> acc + w | XO q -> small q acc (w * 2) | XI q -> small q (acc + w) (w * 2) in
+          (match e10 with Zpos p -> min 100000 (small p 0 1) | Zneg p -> - (min 100000 (small p 0 1)) | Z0 -> 0) in
+      bits (float_of_string (Buffer.contents b ^ "e" ^ string_of_int e)));
+  fmt_float = (fun a -> list_of_string (fmt_shortest (fl a)));
+  eps = bits 1e-9;
+}
+
 let () =
   let b = Buffer.create 65536 in
   (try
@@ -67,7 +224,7 @@ let () =
          let id = String.sub line 0 i in
          let req = String.sub line (i + 1) (String.length line - i - 1) in
          Buffer.clear b;
-         (try print b (dispatch (parse req)) with
+         (try print b (dispatch ops (parse req)) with
           | Stack_overflow -> Buffer.clear b; Buffer.add_string b "driver-stack-overflow"
           | Failure m -> Buffer.clear b; Buffer.add_string b ("driver-parse-error:" ^ m));
          print_string id; print_char '\t'; print_string (Buffer.contents b); print_char '\n'
